@@ -299,9 +299,11 @@ class SoftTTLCache(Entity):
             self._coalesced_requests += 1
             # Wait for backing store latency (simulating waiting for the refresh)
             yield self._backing_store.read_latency
-            # Check if the refresh completed
+            # Check if the refresh completed; never serve an entry past its hard TTL
             if key in self._cache:
-                return self._cache[key].value
+                entry = self._cache[key]
+                if entry.is_valid(self.now, self._hard_ttl):
+                    return entry.value
             return None
 
         # Fetch from backing store (blocking)
